@@ -215,12 +215,8 @@ func c01Scenario(cs c01Case) *mc.Scenario {
 			if b := sv.Busy(); b != holders {
 				x.Fail("busy-mismatch", "strategy busy=%d but %d tokens are held", b, holders)
 			}
-			if g, ok := mc.FieldInt(l, "inFlight"); ok && int(g) != holders {
-				x.Fail("gauge-mismatch", "limiter in-flight gauge=%d but %d tokens are held", g, holders)
-			}
-			if want := max1(lim.EstimatedLimit()); sv.Limit() != want {
-				x.Fail("limit-mismatch", "strategy limit=%d, estimate floored=%d", sv.Limit(), want)
-			}
+			// (the limiter's own in-flight gauge and the agreement of the enforced limit with the estimate
+			// are C02's and C05's subjects: a tree that breaks only those still behaves like a gate)
 			if h.overlapping() {
 				x.MarkConflict()
 			}
@@ -287,7 +283,7 @@ func c01DirectScenario(cs c01Direct) *mc.Scenario {
 							tok, ok := s.TryAcquire(ctx)
 							r := h.now()
 							h.add(t, gateIn{Kind: 0}, ok, c, r)
-							if tok == nil || tok.IsAcquired() != ok {
+							if ok && (tok == nil || !tok.IsAcquired()) || !ok && tok != nil && tok.IsAcquired() {
 								x.Fail("token-iff-ok", "TryAcquire token=%v ok=%v", tok, ok)
 							}
 							if ok {
